@@ -12,9 +12,9 @@
 EXTENDS CondLang
 CONSTANTS MaxTok,
           Operands,     \* operand tokens the generator may use
-          Table         \* [{"p1","p2"} -> package body (token sequence) | <<>> (unknown to the resolver)]
+          Table         \* [package operands -> package body (token sequence) | <<>> (unknown to the resolver)]
 
-Pkgs == {"p1", "p2"}
+Pkgs == DOMAIN Table          \* "p1", "p2", and "pz": the number of p1 written with a leading zero - a different key the tables never know
 AllToks == Operands \cup {"(", ")", "U", "X", "O"}
 
 VARIABLES ts, expect, depth
